@@ -331,10 +331,59 @@ def _check_build_agg(tr, rep, rule, b, b2, rv, loc, common, ctypes, self_fields)
                        "`%s` of the built %s is chosen by a test on the builder's `%s` instead of coming from `%s` alone: a "
                        "setter of `%s` (`%s`) called after the method that sets `%s` no longer takes effect (the last call does not win)"
                        % (f, rname, other, f, f, stale, other))
+        if ok:
+            acc = []
+            _spine_calls(tr, val, f, b, acc)
+            alter = [c_ for c_ in acc if not _value_preserving(tr, c_)]
+            if alter:
+                c_ = alter[0]
+                rep.ob(rule, skey(b, "build-alter." + f), False, c_.where(),
+                       "`%s` of the built %s is the builder's `%s` passed through `%s`, which can drop or change the configured value "
+                       "(only defaulting/wrapping calls and clamps by constants keep it): the mechanism runs with a value the user did not "
+                       "configure" % (f, rname, f, c_.name))
         rep.ob(rule, skey(b, "build." + f), ok, where(b2, loc[0], loc[1]),
                "`%s` of the built %s is computed from the builder's `%s`" % (f, rname, f) if ok else
                "`%s` of the built %s is not computed from the builder's `%s` (%s): the configured value never reaches the "
                "mechanism" % (f, rname, f, show(peel(val))))
+
+
+_PRESERVING = ("expect", "unwrap", "unwrap_or", "unwrap_or_else", "unwrap_or_default", "new", "clone", "into", "from", "to_owned",
+               "to_string", "as_ref", "as_deref", "borrow", "deref", "some", "pin", "boxed", "into_iter", "collect", "default")
+
+
+def _value_preserving(tr, c):
+    if c.name in _PRESERVING:
+        return True
+    if c.name in ("min", "max", "clamp"):
+        # a sanitising clamp by constants
+        others = [peel(tr.expand(tr.operand(c.g.b, a, c.loc))) for a in c.args[1:]]
+        return all(o[0] in ("const", "fnconst") for o in others)
+    return False
+
+
+def _spine_calls(tr, node, f, b, acc, depth=0):
+    """calls that lie between the builder's field `f` (of self) and the value: appended to acc; returns True when
+    the field is below node"""
+    node = peel(node)
+    if depth > 12:
+        return False
+    if node[0] == "field" and node[2] == f and _rooted_in_self(node, b):
+        return True
+    if node[0] == "phi":
+        return any([_spine_calls(tr, x, f, b, acc, depth + 1) for x in node[1]])
+    hit = False
+    if node[0] == "call":
+        c = tr.call_of(node)
+        for a in c.args:
+            if _spine_calls(tr, tr.expand(tr.operand(c.g.b, a, c.loc)), f, b, acc, depth + 1):
+                hit = True
+        if hit:
+            acc.append(c)
+        return hit
+    for ch in tr.children(node):
+        if _spine_calls(tr, ch, f, b, acc, depth + 1):
+            hit = True
+    return hit
 
 
 def _selected_by_other_field(tr, b, op, loc, f, self_fields):
